@@ -39,6 +39,8 @@ def render(par, esc):
 
 
 def run(ctx):
+    m = ctx.tlc("OpenLedger", cfg="CONSTANTS DrainOnDestroy = TRUE\nSPECIFICATION Spec\nINVARIANT NoLimbo\nCHECK_DEADLOCK FALSE\n", timeout=300)
+    ctx.tlc_ok("OpenLedger MC", m)
     for r in ("ptrace", "unshare", "container"):
         m = ctx.tlc("ProcTree", cfg="ProcTree_%s.cfg" % r, workers=2, timeout=600)
         ctx.tlc_ok("ProcTree MC (%s)" % r, m)
@@ -76,8 +78,9 @@ def run(ctx):
            {"id": 2, "what": "session", "ops": list(reversed(HISTORY)), "reps": reps},
            {"id": 3, "what": "build", "ops": [], "reps": ctx.pick(5, 40)},
            {"id": 4, "what": "ptrace", "ops": [], "reps": ctx.pick(3, 20)},
-           {"id": 5, "what": "unshare", "ops": [], "reps": ctx.pick(3, 20)}]
-    cobs = contlib.run_sharded(ctx, "c12ctr", ctr, shards=5, timeout=2400)
+           {"id": 5, "what": "unshare", "ops": [], "reps": ctx.pick(3, 20)},
+           {"id": 6, "what": "openloss", "ops": [], "reps": ctx.pick(4, 20)}]
+    cobs = contlib.run_sharded(ctx, "c12ctr", ctr, shards=6, timeout=2400)
     bad_setup = [o for o in tobs + cobs if o is None or o.get("setup")]
     if bad_setup:
         raise vlib.Inconclusive("%d cases could not be set up: %s" % (len(bad_setup), json.dumps(bad_setup[0])[:500]))
